@@ -840,6 +840,14 @@ class Gen(object):
             op['name'] = rng.choice(['X%d', 'x%d', 'Label%d', '_y%d']) % self.nattr
             op['type'] = rng.choice(['integer', 'string', 'UNIQUE_ID', 'Boolean', 'real', 'unique_id', 'STRING'])
             op['index'] = None if rng.random() < 0.4 else rng.randint(0, len(c['attrs']) - 1)
+        if self.prop == 'C01' and op['name'] is not None:
+            # an instance without a value for a declared attribute cannot be written at all: give every live
+            # instance of the class a value for the new attribute in the steps that follow
+            ops = [op]
+            for h in self.live_of(c['kind']):
+                ops.append({'op': 'set', 'h': h, 'name': self.sp(op['name']),
+                            'v': draw_value(rng, op['type'], self.cfg['p_exotic'])})
+            return ops
         return op
 
     def op_swap_idgen(self):
